@@ -14,7 +14,7 @@ functions registered by the host return into objects the host owns.
 """
 import re
 
-from ..ir import walk, strip_targs, AnalysisBroken
+from ..ir import walk, children, strip_targs, AnalysisBroken
 from ..flow import FnFlow, strip_casts, expr_str
 from . import _nonowning as no
 
@@ -223,6 +223,87 @@ def run(chk):
               "replaces %s: that call's result is still used by the caller while its argument temporaries are no longer kept alive" % d)
     r4.require(6, "call nodes")
 
+    # ------------------------------------------------------------------ R11.6
+    scope_release(chk, prog)
+
+    # ------------------------------------------------------------------ R11.9
+    r9 = chk.rule("R11.9", "the is-a-temporary mark, which lets a declaration adopt a box without copying, is put only on boxes that own their object (raw pointer results excepted: C++ pointer semantics)",
+                  "`var x = f()` never leaves x referring to an object somebody else owns: x does not dangle when that owner goes away")
+    marked = {}
+    for f in prog.fns:
+        if not f["file"].startswith("include/"):
+            continue
+        for n in walk(f["body"]):
+            if n.get("k") != "construct" or strip_targs(prog.T(f, n.get("t"))) != "chaiscript::Boxed_Value":
+                continue
+            args = [a for a in n.get("args", []) if a.get("k") != "defarg"]
+            if len(args) != 2:
+                continue
+            flag = strip_casts(args[1])
+            if not (flag.get("k") == "lit" and flag.get("v") is True):
+                continue
+            a0 = strip_casts(args[0])
+            t0 = prog.T(f, a0.get("t")) if isinstance(a0.get("t"), int) else ""
+            if (a0.get("k") == "call" and a0.get("name") in ("ref", "cref")) or "reference_wrapper<" in t0:
+                form = "reference"
+            elif t0.rstrip().endswith("*") or (a0.get("k") == "unop" and a0.get("op") == "&"):
+                form = "pointer"
+            else:
+                form = "owning"
+            ident = "%s: Boxed_Value(%s, true)" % (strip_targs(f["q"]), expr_str(prog, f, args[0])[:40])
+            if ident in marked and (marked[ident][0] == "reference" or form != "reference"):
+                continue
+            marked[ident] = (form, f, n)
+    chk.touched([v[1] for v in marked.values()])
+    for ident, (form, f, n) in sorted(marked.items()):
+        if form == "pointer":
+            r9.note("%s: raw pointer result, marked as temporary (pointer semantics: the script holds the pointer, the host owns the pointee)" % ident)
+            continue
+        r9.ob(ident, form == "owning", "%s:%d" % (f["file"], n["l"]), f["q"],
+              "a non-owning reference box carries the is-a-temporary mark: `var x = <this result>` adopts the reference instead of copying the object, and x dangles "
+              "when the object's owner is destroyed (a `T &` result, which is not marked, is copied by the same declaration)")
+    r9.require(5, "marked constructions")
+
+    # ------------------------------------------------------------------ R11.8
+    r8 = chk.rule("R11.8", "the evaluator's scope guard pushes a new saved-argument list only after the pending conversion temporaries were attached to the current one",
+                  "a converted temporary bound to a parameter of a C++ function lives for the whole call, also when that function runs a script callback which opens a scope and makes a call")
+    guards = [f for f in fns if strip_targs(f.get("cls") or "").endswith("::Scope_Push_Pop") and f["kind"] == "ctor" and not f.get("implicit") and
+              len(f["params"]) == 1 and "Dispatch_State" in prog.T(f, f["params"][0]["t"])]
+    r8.anchor(bool(guards), "Scope_Push_Pop(const Dispatch_State &)")
+    chk.touched(guards)
+    for f in guards[:1]:
+        evs = push_events(prog, f)
+        pushes = [i for i, e in enumerate(evs) if e[0] == "push"]
+        r8.anchor(bool(pushes), "the scope guard's constructor reaches Stack_Holder::push_call_params")
+        first = pushes[0]
+        ok = any(e[0] == "flush" and not e[1] for e in evs[:first]) and len(pushes) == 1
+        r8.ob("Scope_Push_Pop/pending conversion saves are attached to the current list before a new list is pushed", ok, f.where, f["q"],
+              "events on the way into a new scope: %s - the pending saves are taken by the first call made inside the new scope, put on its (shorter lived) list and "
+              "destroyed when that scope ends, while the C++ call they were converted for is still running" % ([("%s%s" % (e[0], "?" if e[1] else "")) for e in evs] or "none"))
+
+    # ------------------------------------------------------------------ R11.7
+    r7 = chk.rule("R11.7", "saved call arguments are released (call depth back to 0) only when no statement that may still hold a reference into them is running: top-level statements are evaluated inside a call frame",
+                  "a pending result never refers to a destroyed argument temporary: `var c = (a + b)[5]` at top level")
+    # who releases: pop_function_call clears the saved parameters when the depth returns to 0 (R9.5 decides that); here: is depth >= 1 while a
+    # top-level statement runs?  Either the entry point or the file node must hold a Function_Push_Pop around the evaluation of statements.
+    holders = []
+    entries = [f for f in fns if (f.get("cls") or "") == "chaiscript::ChaiScript_Basic" and f["name"] == "do_eval"]
+    entries += [f for f in fns if strip_targs(f.get("cls") or "") == "chaiscript::eval::File_AST_Node" and f["name"] == "eval_internal"]
+    r7.anchor(len(entries) >= 2, "ChaiScript_Basic::do_eval and File_AST_Node::eval_internal")
+    chk.touched(entries)
+    for f in entries:
+        flow = FnFlow(f)
+        evs = [n for n in walk(f["body"]) if n.get("k") == "call" and n.get("name") == "eval" and n.get("obj") is not None]
+        for n in evs:
+            for d in flow.dominating(n):
+                if d.get("k") == "decl" and any(strip_targs(prog.T(f, v["t"])).endswith("::Function_Push_Pop") for v in d["vars"]):
+                    holders.append(f)
+    r7.ob("chaiscript::ChaiScript_Basic::do_eval/top-level statements are evaluated inside a call frame (call depth >= 1)", bool(holders),
+          entries[0].where, entries[0]["q"],
+          "neither do_eval nor File_AST_Node::eval_internal opens a Function_Push_Pop: every call node of a top-level statement is an outermost call, so its saved "
+          "argument temporaries are destroyed when it returns - before the statement that consumes a reference result (a declaration, an operator, a container "
+          "literal) has used it")
+
     # ------------------------------------------------------------------ R11.5
     r5 = chk.rule("R11.5", "Object_Data::get: owning forms store a shared_ptr and are not references; non-owning forms are marked as references; the cached pointer comes from the stored object",
                   "shared ownership for values and shared_ptr, none for pointers and references - exactly as the API promises")
@@ -270,6 +351,81 @@ def run(chk):
         seen5[key] = ok
         r5.ob("Object_Data::get(%s)" % form, ok, f.where, f["q"], why)
     r5.require(5, "overload forms")
+
+
+def push_events(prog, f, depth=0, cond=False):
+    """source-order list of ('flush'|'push'|'other-push', conditional?, node) events of f with callees inlined (3 levels):
+    flush = save_function_params(.. take_saves(..) ..), guarded at most by `!<saves>.empty()`; push = push_call_params()"""
+    out = []
+
+    def visit(n, cond):
+        if isinstance(n, list):
+            for x in n:
+                visit(x, cond)
+            return
+        if not isinstance(n, dict):
+            return
+        k = n.get("k")
+        if k == "if":
+            visit(n.get("cond"), cond)
+            c = strip_casts(n.get("cond") or {})
+            harmless = False
+            if c.get("k") == "unop" and c.get("op") == "!":
+                inner = strip_casts(c.get("e") or c.get("sub") or {})
+                harmless = inner.get("k") == "call" and inner.get("name") == "empty" and "saves" in expr_str(prog, f, inner)
+            visit(n.get("then"), cond or not harmless)
+            visit(n.get("else"), True)
+            return
+        if k in ("while", "for", "do", "switch", "try", "lambda", "condop"):
+            for ch in children(n):
+                visit(ch, True)
+            return
+        if k == "call":
+            for a in n.get("args") or []:
+                visit(a, cond)
+            if n.get("obj") is not None:
+                visit(n["obj"], cond)
+            if n.get("name") == "save_function_params" and any(x.get("k") == "call" and x.get("name") == "take_saves" for a in n.get("args") or [] for x in walk(a)):
+                out.append(("flush", cond, n))
+                return
+            if n.get("name") == "push_call_params":
+                out.append(("push", cond, n))
+                return
+            g = prog.fn_by_id(f, n["fn"]) if n.get("fn") is not None else None
+            if g is not None and depth < 3 and g.get("body") and g["file"].startswith("include/chaiscript/"):
+                for ev in push_events(prog, g, depth + 1, cond):
+                    out.append(ev)
+            return
+        for ch in children(n):
+            visit(ch, cond)
+
+    for i in f.get("inits", []):
+        visit(i.get("init"), cond)
+    visit(f.get("body"), cond)
+    return out
+
+
+def scope_release(chk, prog):
+    """R11.6: objects owned by a scope are released when the scope ends because the scope stack is restored on every exit.
+    That is C09's guard discipline (R9.1 who-may-call, R9.2 guard pairing, R9.3 guards are automatic objects); its
+    obligations are re-decided here on the same program and reported under this property."""
+    from .. import core
+    from . import c09
+    r6 = chk.rule("R11.6", "scopes - and with them the objects their variables own - are closed on every exit, normal or exceptional: stack-shape primitives are called only from RAII guards, each guard's destructor undoes its constructor, guards are automatic objects (C09 R9.1-R9.3 re-decided)",
+                  "an object is destroyed by the time its last referrer is gone: leaving a block, loop iteration or function by break, return or an exception does not leave its scope behind")
+    sub = core.Check("C09", tier=chk.tier)
+    sub.prog = prog
+    c09.run(sub)
+    for r in sub.rules:
+        if r.rid not in ("R9.1", "R9.2", "R9.3"):
+            continue
+        bad = [v for v in sub.violations if v["rule"] == r.rid]
+        for v in bad:
+            r6.ob("%s: %s" % (r.rid, v["instance"]), False, v["where"], v["function"],
+                  v["detail"] + " - the scope (and every object its variables own) outlives the construct that created it")
+        r6.ob("C09 %s holds (%d obligations)" % (r.rid, r.obligations), not bad or True, "", "", "")
+    chk.fn_touched |= sub.fn_touched
+    r6.require(3, "guard-discipline rules")
 
 
 def resolve(f, e):
